@@ -178,7 +178,7 @@ pub fn gen_result(rng: &mut Rng, n: usize, out: &mut Vec<String>) {
         out.push(format!("result {}", show_tree(&t)));
     }
     // result codes at and beyond the 32-bit boundary, in 4 to 9 content octets (F28: nothing is truncated into range)
-    for code in [vec![0x00u8, 0xff, 0xff, 0xff, 0xff], vec![0x01, 0, 0, 0, 0], vec![0x35, 0, 0, 0, 0], vec![0, 0, 0, 1, 0, 0, 0, 0], vec![1, 0, 0, 0, 0, 0, 0, 0, 0], vec![0, 0, 0, 0, 0, 0, 0, 0, 5], vec![0x80], vec![0xff, 0xff, 0xff, 0xff]] {
+    for code in [vec![0x00u8, 0xff, 0xff, 0xff, 0xff], vec![0x01, 0, 0, 0, 0], vec![0x35, 0, 0, 0, 0], vec![0, 0, 0, 1, 0, 0, 0, 0], vec![1, 0, 0, 0, 0, 0, 0, 0, 0], vec![0, 0, 0, 0, 0, 0, 0, 0, 5], vec![0x80], vec![0xff, 0xff, 0xff, 0xff], vec![] /* F51: no content octets */, vec![0]] {
         let mut t = ldap_result(*rng.pick(&[1u64, 7, 24]), 0, b"", b"x", None);
         if let PL::C(k) = &mut t.payload { k[0] = p(TagClass::Universal, 10, &code); }
         out.push(format!("result {}", show_tree(&t)));
